@@ -1,4 +1,6 @@
-(* Findings F7 (C17) on the faithful model.  NOT imported by Props/.
+(* HISTORICAL RECORD: findings F7 (C17) on the model of the tree BEFORE /repo commits 07c64a4 / d0489d8, i.e. with the two
+   source-derived flags pinned to their old values (rejects_bad_period = false, validates = false).  NOT imported by Props/;
+   no check depends on this file.
    Witness configuration: KTP, type-2 e->eo, crystal angle "auto" / 90 deg, pump 775 nm, signal 700 nm (< pump), collinear.
    For EVERY choice of oracles (the panic happens before any numerical kernel is consulted, or independently of it):
      - automatic poling period      -> Panic at the unwrap in optimum_poling_period   (periodic_poling.rs)
@@ -28,17 +30,17 @@ Definition idler_explicit : beam_cfg Q :=
      bc_waist_um := 100; bc_waist_pos_um := Auto |}.
 
 Lemma C17_auto_period_panics_refuted K :
-  try_as_spdc Q_ops UQ K minposQ cfg_validates_wavelengths (witness (Param 90) (PCConfig Auto ACOff) Auto) = Panic SiteOptPeriodUnwrap.
+  try_as_spdc Q_ops UQ K minposQ false false (witness (Param 90) (PCConfig Auto ACOff) Auto) = Panic SiteOptPeriodUnwrap.
 Proof. vm_compute. reflexivity. Qed.
 
 Lemma C17_explicit_period_panics_refuted K :
-  try_as_spdc Q_ops UQ K minposQ cfg_validates_wavelengths (witness (Param 90) (PCConfig (Param (465 # 10)) ACOff) Auto) = Panic SiteComputeSignUnwrap.
+  try_as_spdc Q_ops UQ K minposQ false false (witness (Param 90) (PCConfig (Param (465 # 10)) ACOff) Auto) = Panic SiteComputeSignUnwrap.
 Proof. vm_compute. reflexivity. Qed.
 
 
 Lemma C17_auto_theta_panics_refuted K :
   (forall b cs, o_snell_ext K b cs <> None) ->
-  try_as_spdc Q_ops UQ K minposQ cfg_validates_wavelengths (witness Auto PCOff Auto) = Panic SiteOptThetaUnwrap.
+  try_as_spdc Q_ops UQ K minposQ false false (witness Auto PCOff Auto) = Panic SiteOptThetaUnwrap.
 Proof.
   destruct K as [si se nt dk np it wp]. cbn [o_snell_ext]. intros H. vm_compute.
   match goal with |- context [se ?b ?cs] => specialize (H b cs); destruct (se b cs); [| congruence] end.
@@ -46,14 +48,14 @@ Proof.
 Qed.
 
 Lemma C17_explicit_idler_no_check_refuted K :
-  is_ok (try_as_spdc Q_ops UQ K minposQ cfg_validates_wavelengths (witness (Param 90) PCOff (Param idler_explicit))) = true.
+  is_ok (try_as_spdc Q_ops UQ K minposQ false false (witness (Param 90) PCOff (Param idler_explicit))) = true.
 Proof. vm_compute. reflexivity. Qed.
 
 (* the property's "a signal wavelength not longer than the pump wavelength is an error, whatever else is auto" *)
 Lemma C17_signal_le_pump_is_error_refuted :
   ~ (forall (K : oracles Q) c signal,
        signal_step Q_ops K c = Ok signal -> signal_le_pump Q_ops signal (cfg_pump Q_ops c) = true ->
-       is_err (try_as_spdc Q_ops UQ K minposQ cfg_validates_wavelengths c) = true).
+       is_err (try_as_spdc Q_ops UQ K minposQ false false c) = true).
 Proof.
   intros H.
   pose (K0 := {| o_snell_inv := fun _ _ _ => None; o_snell_ext := fun _ _ => None; o_nm_theta := fun _ _ _ _ => None;
@@ -65,7 +67,7 @@ Proof.
 Qed.
 
 Lemma C17_no_panic_refuted :
-  ~ (forall (K : oracles Q) c, is_panic (try_as_spdc Q_ops UQ K minposQ cfg_validates_wavelengths c) = false).
+  ~ (forall (K : oracles Q) c, is_panic (try_as_spdc Q_ops UQ K minposQ false false c) = false).
 Proof.
   intros H.
   pose (K0 := {| o_snell_inv := fun _ _ _ => None; o_snell_ext := fun _ _ => None; o_nm_theta := fun _ _ _ _ => None;
